@@ -5,6 +5,7 @@ import CifModel.Lemmas.StoreRefine
 import CifModel.Lemmas.StoreRefineQ
 import CifModel.Lemmas.StoreRefineS
 import CifModel.Lemmas.StoreRefineR
+import CifModel.Lemmas.StoreRefineC
 /-
   Property C04 — the managed CIF behaves as the documented data model under any API history.
 
@@ -722,6 +723,69 @@ theorem C04_refines_destroy_loop (d : Db) (x : LoopRow) (h : Inv d) :
     (∀ y ∈ d.loops, ¬(y.cid = x.cid ∧ y.loopNum = x.loopNum) → absLoop d' y = absLoop d y) ∧
     d'.frames = d.frames ∧ d'.blocks = d.blocks :=
   destroyLoop_refines d x h
+
+/-- C04_refines, loop level, proved for set_category (the UPDATE matched the loop): the loop gets the category and keeps names and
+    packets; every other loop of the CIF is what it was; item, value, block, frame tables untouched.  (That the reserved category
+    "" is neither given nor taken: `scalar_category_cannot_be_given`, `scalar_category_cannot_be_taken`.) -/
+theorem C04_refines_set_category (d d' : Db) (cid ln : Nat) (cat : Option Str) (he : d.setCategory cid ln cat = .ok (d', 1)) :
+    d'.loops = d.loops.map (fun l => if l.cid == cid && l.loopNum == ln then { l with category := cat } else l) ∧
+    (∀ x : LoopRow, x.cid = cid → x.loopNum = ln → absLoop d' { x with category := cat } = { absLoop d x with category := cat }) ∧
+    (∀ y : LoopRow, absLoop d' y = absLoop d y) ∧
+    d'.items = d.items ∧ d'.values = d.values ∧ d'.frames = d.frames ∧ d'.blocks = d.blocks :=
+  setCategory_refines d d' cid ln cat he
+
+/-- C04_refines, loop level, proved for add_item: on success the loop gains the name — given spelling, last position — and the given
+    value as the last entry of EVERY packet; nothing else of the loop changes; every other loop of the CIF is what it was. -/
+theorem C04_refines_add_item (d d' : Db) (l : LH) (key orig : Str) (v : V) (n : Nat) (x : LoopRow) (h : Inv d) (hx : x ∈ d.loops)
+    (hxk : x.cid = l.cid ∧ x.loopNum = l.loopNum) (he : addItemBody l key orig v d = .ok (d', n)) :
+    absLoop d' x = { category := x.category, names := (absLoop d x).names ++ [orig],
+                     packets := (absLoop d x).packets.map (fun p => p ++ [v]) } ∧
+    (∀ y ∈ d.loops, ¬(y.cid = x.cid ∧ y.loopNum = x.loopNum) → absLoop d' y = absLoop d y) ∧
+    d'.loops = d.loops ∧ d'.frames = d.frames ∧ d'.blocks = d.blocks :=
+  addItem_refines d d' l key orig v n x h hx hxk he
+
+/-- C04_refines, loop level, proved for prune: exactly the loops of the container that have no packet in the documented model
+    disappear (`prune_selects`); every other loop of the CIF is what it was; block and frame tables untouched. -/
+theorem C04_refines_prune (d : Db) (cid : Nat) (h : Inv d) :
+    (d.prune cid).loops = d.loops.filter (fun l => !(l.cid == cid && (absLoop d l).packets.isEmpty)) ∧
+    (∀ y ∈ d.loops, ¬(y.cid = cid ∧ (absLoop d y).packets = []) → absLoop (d.prune cid) y = absLoop d y) ∧
+    (d.prune cid).frames = d.frames ∧ (d.prune cid).blocks = d.blocks := by
+  let p : LoopRow → Bool := fun l => l.cid == cid && !(d.items.any (fun i => i.cid == cid && i.loopNum == l.loopNum
+      && d.values.any (fun v => v.cid == cid && v.name == i.name)))
+  have hr := deleteLoops_refines d p h (fun a b hc hl => by simp only [p, hc, hl])
+  have hsel : ∀ l : LoopRow, p l = (l.cid == cid && (absLoop d l).packets.isEmpty) := by
+    intro l
+    cases hc : (l.cid == cid) with
+    | false => simp [p, hc]
+    | true =>
+      have hl : l.cid = cid := by simpa using hc
+      have := prune_selects d cid l hl
+      cases hp : p l with
+      | true =>
+        have h1 : (absLoop d l).packets = [] := this.mp (show p l = true from hp)
+        simp [h1]
+      | false =>
+        cases he : (absLoop d l).packets with
+        | nil =>
+          have h2 : p l = true := this.mpr he
+          rw [hp] at h2; cases h2
+        | cons a as => simp
+  refine ⟨?_, ?_, hr.2.2.1, hr.2.2.2⟩
+  · show (d.deleteLoops p).loops = _
+    rw [hr.1]
+    apply List.filter_congr
+    intro l _
+    rw [hsel l]
+  · intro y hy hne
+    apply hr.2.1 y hy
+    rw [hsel y]
+    cases hc : (y.cid == cid) with
+    | false => simp
+    | true =>
+      have hyc : y.cid = cid := by simpa using hc
+      cases he : (absLoop d y).packets with
+      | nil => exact absurd ⟨hyc, he⟩ hne
+      | cons a as => simp
 
 /-- `absLoops` is what `abs` shows as the loops of a container -/
 theorem C04_absLoops_is_abs (d : Db) (fuel cid : Nat) (code : Str) : (absContainer d (fuel + 1) cid code).loops = absLoops d cid := by
